@@ -60,6 +60,24 @@ def strip_lean_comments(src):
     return "".join(out)
 
 
+def import_closure(mods):
+    """Relative paths of all PopsModel source files transitively imported by `mods`."""
+    seen, todo = set(), list(mods)
+    while todo:
+        m = todo.pop()
+        if m in seen or not m.startswith("PopsModel"):
+            continue
+        seen.add(m)
+        path = os.path.join(LEAN, *m.split(".")) + ".lean"
+        if not os.path.exists(path):
+            continue
+        for line in open(path):
+            mm = re.match(r"\s*import\s+(\S+)", line)
+            if mm:
+                todo.append(mm.group(1))
+    return sorted(os.path.join(*m.split(".")) + ".lean" for m in seen if os.path.exists(os.path.join(LEAN, *m.split(".")) + ".lean"))
+
+
 def lean_audit(pid, cfg, thorough):
     """Returns (obligations, discharged, problems:list[str], details)."""
     problems = []
@@ -68,14 +86,12 @@ def lean_audit(pid, cfg, thorough):
     r = run(["lake", "build"] + mods + ["popsdriver"], cwd=LEAN)
     if r.returncode != 0:
         problems.append("lake build failed for %s: %s" % (mods, r.stdout[-1500:]))
-    # forbidden constructs anywhere in the library
-    for root, _, files in os.walk(os.path.join(LEAN, "PopsModel")):
-        for f in files:
-            if f.endswith(".lean"):
-                txt = strip_lean_comments(open(os.path.join(root, f)).read())
-                m = FORBIDDEN.search(txt)
-                if m:
-                    problems.append("forbidden construct %r in %s" % (m.group(0).strip(), os.path.relpath(os.path.join(root, f), LEAN)))
+    # forbidden constructs in every library file the property's theorems or the driver depend on
+    for rel in import_closure(mods + ["PopsModel.Driver.Main"]):
+        txt = strip_lean_comments(open(os.path.join(LEAN, rel)).read())
+        m = FORBIDDEN.search(txt)
+        if m:
+            problems.append("forbidden construct %r in %s" % (m.group(0).strip(), rel))
     thms = cfg["theorems"]
     os.makedirs(BUILD, exist_ok=True)
     axf = os.path.join(BUILD, "axioms_%s.lean" % pid)
